@@ -51,6 +51,30 @@ CHECKS = {
               "model's reachable states for limits 1..5/6 on app_pointer_map<uint8_t>, random histories on 8/32/64-bit tables, and owner histories on vsbx and noop. "
               "One genuine defect found and repaired (fix: 2f7f77d, move-assignment onto a live owner leaked its token)."),
         note=NOTE + "The table's std::map is modelled as a total function Nat -> Option Nat."),
+    "C03": dict(
+        engine="mem", design_ref="DESIGN.md §6 C03",
+        technique="Lean 4 invariant over all derivation chains (induction on the op list) under explicit backend laws + differential execution of random/enumerated chains + compile probes",
+        text=("Proof: C03_from_guest / C03_from_cell (every guest representation yields null or an in-region address: all 2^32, symbolically), C03_step and C03_chain (the invariant is kept by "
+              "+ - [] & * -> casts opaque loads malloc for chains of any length; member designation under the explicit side condition that the aggregate lies inside), "
+              "C03_designation_witness (the full statement is false: known finding F7). Tied to the code by all 65536 representations x 5 positions x 2 live sandboxes (block hash), "
+              "5000-30000 random derivation chains, expression probes judged by the compiler, thorough: all 2^32 representations in the cell position. "
+              "Two defects found here were repaired (66bbbbc null index, a71b992 number + pointer)."),
+        note=NOTE + "Theorems are conditional on the backend laws (Sbx.wf: aligned region, mask translation) which vsbx satisfies by construction; F7 is a listed known finding."),
+    "C04": dict(
+        engine="mem", design_ref="DESIGN.md §6 C04",
+        technique="Lean 4 round-trip/null/agreement theorems for the mask-based translation + registry lemma by induction + differential execution over every region offset",
+        text=("Proof: C04_rt_addr, C04_rt_rep (round trips for every in-region address / canonical representation), C04_null, C04_nonnull, C04_noctx_agrees and C04_cell_relative "
+              "(the context-free path given the cell's own address equals the path with context on the owning sandbox), C04_find_own / C04_find_none (registry lookup with any number of "
+              "pairwise-disjoint live sandboxes in any order). Tied to the code by every offset of the region stored/round-tripped in a pointer cell, all store/load positions, "
+              "two live ABI-A sandboxes plus an ABI-B sandbox with host-width guest pointers, function-pointer cells through the registry."),
+        note=NOTE + "The first byte of a region has representation 0 (the sandbox's null) and is excluded explicitly."),
+    "C07": dict(
+        engine="mem", design_ref="DESIGN.md §6 C07",
+        technique="Lean 4 frame/round-trip/locality theorems on a byte-level memory model (little-endian encode/decode lemmas by induction) + differential execution with region hashes",
+        text=("Proof: C07_frame (a store changes no byte outside [a, a+guestSize)), C07_roundtrip (load after store returns the value, using the C06 theorems), C07_decode (a load depends only on those "
+              "bytes), C07_footprint_is_layout, for every integer type, every well-formed ABI, every address and memory. Tied to the code by stores/loads of 14 types at all alignments and at the "
+              "region end with window + whole-region hash comparison, five load paths, whole-array (multi-dimensional) stores. Two defects found here were repaired (ec0ed44, cb0dd04)."),
+        note=NOTE + "float/double/pointer/struct footprints are checked under C08/C04; bool loads of non-canonical bytes are not judged."),
 }
 
 TODO_REASON = "check not built yet in this round (design in DESIGN.md §6); will be claimed when its theorems and correspondence check exist"
